@@ -64,38 +64,51 @@ def fhex(x):
 
 def snap(o, stack=()):
     """Deep snapshot BY VALUE (floats bit for bit, arrays by dtype/shape/bytes, objects through __dict__)."""
-    if isinstance(o, _ATOMS):
+    t = type(o)
+    if t is float:
+        return ("f", o.hex() if o == o else "nan")
+    if t in _ATOM_SET:
         return o
-    if isinstance(o, (float, np.floating)):
+    if isinstance(o, np.floating):
         return ("f", fhex(o))
     if isinstance(o, np.bool_):
         return bool(o)
     if isinstance(o, np.integer):
         return int(o)
-    if isinstance(o, np.ndarray):
+    if t is np.ndarray:
         if o.dtype == object:
             return ("ndo", o.shape, [snap(e, stack) for e in o.ravel().tolist()])
         return ("nd", str(o.dtype), o.shape, hashlib.sha1(np.ascontiguousarray(o).tobytes()).hexdigest())
-    if isinstance(o, _REFS) or callable(o) and not hasattr(o, "__dict__"):
-        return ("ref", getattr(o, "__qualname__", type(o).__name__), id(o))
+    if isinstance(o, _REFS) or (callable(o) and not hasattr(o, "__dict__")):
+        return ("ref", getattr(o, "__qualname__", t.__name__), id(o))
     if id(o) in stack:
         return ("cycle", stack.index(id(o)))
     st = stack + (id(o),)
-    if isinstance(o, dict):
+    if t is dict:
         return ("dict", [(repr(k), snap(v, st)) for k, v in o.items()])
     if isinstance(o, (list, tuple, collections.deque)):
-        return ("seq", type(o).__name__, getattr(o, "maxlen", None), [snap(e, st) for e in o])
+        return ("seq", t.__name__, getattr(o, "maxlen", None), [snap(e, st) for e in o])
+    if isinstance(o, dict):
+        return ("dict", [(repr(k), snap(v, st)) for k, v in o.items()])
     if isinstance(o, (set, frozenset)):
         return ("set", sorted(repr(e) for e in o))
-    if isinstance(o, types.LambdaType) or callable(o) and isinstance(o, types.FunctionType):
-        return ("ref", o.__qualname__, id(o))
     if hasattr(o, "__dict__"):
-        return ("obj", type(o).__qualname__, snap(vars(o), st))
+        return ("obj", t.__qualname__, snap(vars(o), st))
     return ("repr", repr(o))
 
 
+_ATOM_SET = {type(None), bool, int, str, bytes}
+_SKIP_CLASS_KEYS = ("__dict__", "__weakref__", "__doc__", "_abc_impl", "__slotnames__")  # __slotnames__: copyreg's per-class memo, written by copy.deepcopy
+
+
 def snap_class(c):
-    return [(k, snap(v)) for k, v in vars(c).items() if k not in ("__dict__", "__weakref__", "__doc__", "_abc_impl", "__slotnames__")]  # __slotnames__: copyreg's per-class memo, written by copy.deepcopy
+    """Class attributes by value (deep)."""
+    return [(k, snap(v)) for k, v in vars(c).items() if k not in _SKIP_CLASS_KEYS]
+
+
+def snap_class_fast(c):
+    """Class attributes: binding identity for everything, contents for containers (the per-call version)."""
+    return [(k, id(v), snap(v) if isinstance(v, (dict, list, set, np.ndarray)) else None) for k, v in vars(c).items() if k not in _SKIP_CLASS_KEYS]
 
 
 def rng_fingerprint():
@@ -200,26 +213,29 @@ class World:
         self.rel_classes = []
         self.rec = recorder
         self.tape = []  # KSWIN draws in global order ([] when an update drew nothing)
+        self.cache = {}  # snapshots taken after the previous call: nothing but harness reads happens in between
         self.build()
 
     # -- what must not change
-    def parts(self, skip_inst=None):
+    def parts(self, skip_inst=None, reuse=False):
+        old = self.cache if reuse else {}
         p = {}
-        p["class"] = [(c.__qualname__, snap_class(c)) for c in self.rel_classes]
+        p["class"] = old.get("class") or [(c.__qualname__, snap_class_fast(c)) for c in self.rel_classes]
         for i, c in enumerate(self.cfgs):
-            p[f"cfg{i}"] = snap(c)
+            p[f"cfg{i}"] = old.get(f"cfg{i}") or snap(c)
         for j, d in enumerate(self.insts):
             if j != skip_inst:
-                p[f"inst{j}"] = snap(d)
+                p[f"inst{j}"] = old.get(f"inst{j}") or snap(d)
         p["rng"] = rng_fingerprint()
         return p
 
     def bracket(self, what, writer, fn, skip_inst=None, rng_allowed=False):
         if not self.footprint:
             return fn()
-        before = self.parts(skip_inst)
+        before = self.parts(skip_inst, reuse=True)
         r = fn()
         after = self.parts(skip_inst)
+        self.cache = after
         for k in before:
             if k == "rng" and rng_allowed:
                 continue
@@ -284,6 +300,7 @@ class World:
             for c in type(o).__mro__:
                 if c.__module__.startswith("frouros") and c not in self.rel_classes:
                     self.rel_classes.append(c)
+                    self.cache.pop("class", None)
 
     def call(self, j):
         """Next call of instance j; returns (observation, history snapshot)."""
